@@ -55,6 +55,22 @@ FIRST = {
     'C18-m6': 'missed -> C18.fext passes the evaluation points of ConeCyl.uvw as Fortran-ordered / transposed / mixed 2-D arrays',
     'C20-m5': 'missed -> in C20 the fresh twin of a ConeCyl works with another number of integration threads than the shared object',
     'C20-m6': 'missed -> C20 Panel calls alternate between an explicit integration grid and the default grid',
+    # round 4
+    'C02-m7': 'missed -> strips that start exactly at y1 = 0.0 / end at b are drawn on purpose; the tiling strips carry the pre-load too',
+    'C03-m7': 'missed -> C03.state also builds the state-based matrix through Panel.lb(c, nx=None, ny=None) (panel default orders, nx != ny)',
+    'C04-m7': 'missed -> C04.bay_mass draws bays whose skin strips are given different ply thicknesses through add_panel(plyt=...)',
+    'C07-m8': 'missed -> C07.solve draws saddle-point matrices (stiffness bordered by a Lagrange-multiplier row: zero diagonal in a non-null row)',
+    'C09-m8': 'missed -> linear problems of C09 may be saddle-point systems',
+    'C11-m7': 'missed -> assembly group names of C11 contain one another (flange / flange_upper)',
+    'C11-m8': 'missed -> the 2-D point-array layouts of C11 are also applied to Panel.stress',
+    'C12-m8': 'missed -> connection dicts of C12.assembly may carry has_defect=False as the package own assembly builders do',
+    'C13-m7': 'missed -> panels of C13.assembly may be loaded by a single resultant (pure shear) with the others undefined',
+    'C14-m8': 'missed -> C14.numeric pre-loads the panel (N_cte) in both descriptions',
+    'C16-m8': 'missed -> the edge-energy oracle of C16.edges takes the bottom radius from r2 + L sin(alpha), not from the attribute r1',
+    'C17-m7': 'missed -> C17 draws load asymmetry (betadeg, tLAdeg)',
+    'C17-m8': 'missed -> C17 asserts the order of the small-state remainder (two halvings) and kT(0) == k0uu on loaded shells',
+    'C18-m7': 'missed -> C18.fext places a constant and an incremented force at exactly the same point',
+    'C20-m8': 'missed -> C20 hands the load tables over as float64 arrays and checks that calc_fext leaves them untouched',
 }
 
 
